@@ -124,7 +124,7 @@ def is_real(t):
     c = t["h"][0]
     if c["step"] == "proximal_step" and c["f"] == 6:       # the one composite case of the real side
         return True
-    return c["opt"] != "bogus" and c["f"] in (0, 1, 2, 3, 4, 5) and c["h"] in (0, 1, 2)
+    return c["opt"] not in ("bogus", "rel", "PD_gap") and c["f"] in (0, 1, 2, 3, 4, 5) and c["h"] in (0, 1, 2)
 
 
 def judge(res, verdicts, part):
